@@ -6,7 +6,7 @@ VARIABLES c
 NoLit == [pre |-> FALSE, post |-> FALSE, nph |-> 1, ref |-> "next", ty |-> "Display", mod |-> "none"]
 Lits == [pre : BOOLEAN, post : BOOLEAN, nph : 1..2,
          ref : {"next", "pos0", "pos1", "pos2", "name_field", "name_other"},
-         ty : PhTypes, mod : {"none", "ws", "width", "fill", "sign", "alt", "zero", "prec"}]
+         ty : PhTypes, mod : {"none", "ws", "width", "fill", "left", "center", "right", "sign", "minus", "alt", "zero", "prec"}]
 ArgForms == {"none", "pos_field", "pos_expr", "named_match", "named_nomatch", "two"}
 
 Cases == [hasAttr : {TRUE}, nfields : 1..2, named : BOOLEAN, D : DerivedTraits, lit : Lits, args : ArgForms]
